@@ -82,8 +82,16 @@ def _run_units(cfg, scratch, support_dir, tier, seed):
         for n in R.UNITS[u].get('needs', []):
             if n not in order: order.append(n)
         if u not in order: order.append(u)
+    failed_exports = {}
     for u in order:
         R.snapshot(scratch)          # every unit is spliced from a pristine copy of the current tree
+        blocked = [n for n in R.UNITS[u].get('needs', []) if n in failed_exports]
+        if blocked:
+            # a unit this one imports could not even be compiled for export: this unit is undecided; the bounded stand-ins still run
+            ur = R.UnitResult(); ur.name = u; ur.fatal = 'unit %s cannot be exported for its dependants: %s' % (blocked[0], failed_exports[blocked[0]]); ur.report = {'functions': [], 'items': [], 'file_rules': [], 'ghost_clauses': []}
+            ur.attributed = []
+            results[u] = ur
+            continue
         try:
             ur = R.run_unit(u, scratch, support_dir, tier, seed)
         except R.Undecided as e:
@@ -157,7 +165,10 @@ def _run_units(cfg, scratch, support_dir, tier, seed):
                 cmd = [c for c in cmd if c not in ('--output-json', '--time')] + ['--no-verify']
                 rc, out, err, _ = R.run(cmd, cwd=os.path.join(scratch, 'repo'))
                 if not os.path.exists(rlib):
-                    raise R.Undecided('unit %s cannot be exported for its dependants:\n%s' % (u, err[-2000:]))
+                    m_ = re.search(r'"message":"([^"]{0,200})', err or '')
+                    failed_exports[u] = (m_.group(1) if m_ else (err or '')[-300:]).replace('\n', ' ')
+                    R.log('unit %s cannot be exported for its dependants:\n%s' % (u, (err or '')[-2000:]))
+                    if not ur.fatal: ur.fatal = 'rustc rejected the spliced text of unit %s: %s' % (u, failed_exports[u])
     return results
 
 
